@@ -369,7 +369,7 @@ def needs (E : Env Float) (t : Tables) (ss : List (StageK Float)) (bs : Batches 
     | _ => [])
 
 /-! ### canonical output -/
-def floatText (x : Float) : String := if x.isNaN then "nan" else toString x.toBits
+def floatText (x : Float) : String := if x.isNaN then "nan" else if x == 0.0 then "0" else toString x.toBits   -- the sign of a zero is not compared (c9FloatText)
 
 def labelsText (l : Labels) : String :=
   if l.isEmpty then "-" else "&".intercalate ((sortLabels l).map (fun kv => hexOut kv.1 ++ "=" ++ hexOut kv.2))
